@@ -67,6 +67,7 @@ EventStep(ev) ==
   \/ /\ ev.e = "enter" /\ KnownInv(ev.r, ev.p)
      /\ LET g == HandlerG(ev.r, ev.p) IN
           /\ Enter(g, ev.r, ev.p)
+          /\ ~FifoInversion(g)                                 \* C07: Async+Sequential processes a goroutine's publishes in order
           /\ ev.ctxp = ev.p                                    \* the handler's context carries the publish context's values
           /\ (ev.ca /\ cfg.obs) => (Tok(g) # <<>> /\ ev.tok = Last(Tok(g)))   \* ... and descends from OnHandlerStart's
      /\ UNCHANGED toks
